@@ -78,7 +78,12 @@ func (r *verifChunkedReader) Read(p []byte) (int, error) {
 	}
 	n := len(p)
 	if len(r.sizes) > 0 {
-		s := int(r.sizes[r.i%len(r.sizes)] % (1 << 20))
+		// the generated values are spread over [0, 1 MiB) (multiplicative hashing), every other read is a short one
+		// (< 512 bytes): reads of very different sizes follow each other
+		s := int((uint64(r.sizes[r.i%len(r.sizes)]) * 2654435761 >> 7) % (1 << 20))
+		if r.i%2 == 0 {
+			s %= 512
+		}
 		r.i++
 		if s > 0 && s < n {
 			n = s
@@ -97,7 +102,7 @@ func (r *verifChunkedReader) Read(p []byte) (int, error) {
 // CRC64NVME, SHA-1, SHA-256), and the reported size is the number of bytes.
 func verifStreamingEqualsOneShot(seed []byte, length uint32, reads []uint32, consumerBuf uint32) bool {
 	// a deterministic pseudo-random body of up to 1.5 MiB derived from the generated values
-	data := make([]byte, int(length%(3<<19)))
+	data := make([]byte, int((uint64(length)*2654435761>>5)%(3<<19)))
 	state := uint32(2463534242) + length
 	for _, b := range seed {
 		state = state*31 + uint32(b)
@@ -108,7 +113,7 @@ func verifStreamingEqualsOneShot(seed []byte, length uint32, reads []uint32, con
 		state ^= state << 5
 		data[i] = byte(state)
 	}
-	bufSize := 1 + int(consumerBuf%(1<<20))
+	bufSize := 1 + int((uint64(consumerBuf)*2654435761>>9)%(1<<20))
 	size, sums, err := CalculateChecksumsStreaming(context.Background(), &verifChunkedReader{data: data, sizes: reads}, func(r io.Reader) error {
 		buf := make([]byte, bufSize)
 		for {
